@@ -32,13 +32,13 @@ ASSUMPTIONS = ['pre-emption is modelled at ampycloud source-line granularity; ra
                'parallelism (free-threaded builds) are out of reach',
                'crashes of the isolated reference runs are left to C08 (case skipped)']
 BUDGET = {'quick': 0, 'thorough': 0}
-N_PAIRS = {'quick': 6, 'thorough': 96}
-N_TRIPLES = {'quick': 6, 'thorough': 48}
+N_PAIRS = {'quick': 6, 'thorough': 48}
+N_TRIPLES = {'quick': 6, 'thorough': 12}
 TRIPLE_SAMPLES = {'quick': 40, 'thorough': 1680}
-N_SCHED = {'quick': 128, 'thorough': 4000}
-N_FREE = {'quick': 16, 'thorough': 320}
-N_PB1 = {'quick': 1, 'thorough': 12}
-N_RV = {'quick': 1, 'thorough': 12}
+N_SCHED = {'quick': 128, 'thorough': 2400}
+N_FREE = {'quick': 16, 'thorough': 160}
+N_PB1 = {'quick': 1, 'thorough': 6}
+N_RV = {'quick': 1, 'thorough': 6}
 STEPS4 = ['S', 'G', 'L', 'Q']
 _REF_CACHE = {}
 
